@@ -25,7 +25,8 @@ pub assume_specification<P: Pattern> [str::starts_with] (s: &str, p: P) -> (r: b
 #[verifier::allow(undeclared_external_trait)]
 pub assume_specification<P: Pattern> [str::ends_with] (s: &str, p: P) -> (r: bool)
     where for<'a> <P as Pattern>::Searcher<'a>: ReverseSearcher<'a>
-    ensures pat_as_char(p) matches Some(c) ==> r == (s@.len() > 0 && s@.last() == c);
+    ensures pat_as_char(p) matches Some(c) ==> r == (s@.len() > 0 && s@.last() == c),
+            pat_as_str(p) matches Some(t) ==> r == t.is_suffix_of(s@);
 pub assume_specification<I: SliceIndex<str>> [<str as Index<I>>::index] (s: &str, idx: I) -> (r: &<I as SliceIndex<str>>::Output)
    ensures idx.index_postcondition(s, r);
 
@@ -133,3 +134,9 @@ pub broadcast axiom fn axiom_byte_off_end(s: &str)
 pub broadcast axiom fn axiom_byte_off_mono(cs: Seq<char>, a: int, b: int)
     requires 0 <= a < b <= cs.len()
     ensures #[trigger] byte_off(cs, a) < #[trigger] byte_off(cs, b);
+// ---- suffix patterns and UTF-8 length arithmetic (OverlayFS::read_dir strips the "_wo" suffix by byte length)
+pub broadcast axiom fn axiom_encode_concat(a: Seq<char>, b: Seq<char>)
+    ensures #[trigger] encode_utf8(a + b).len() == encode_utf8(a).len() + encode_utf8(b).len();
+pub broadcast axiom fn axiom_ascii_one_byte(c: char)
+    requires (c as u32) < 128
+    ensures #[trigger] encode_utf8(seq![c]).len() == 1;
